@@ -51,8 +51,9 @@ theorem step_value (g : Nat) (h v : Bytes) (w : Nat) (d : Bool) (key : List Nib)
     markToCollect hasDb s (g + 1) (.value h v w d) key = { node := .value h v w d } := by
   simp [markToCollect]
 
+/-- a branch below the full key depth is marked, the walk ends there -/
 theorem step_routing_nil (g : Nat) (h : Bytes) (ch : Nib → WN) (w : Nat) (d tc : Bool) :
-    (markToCollect hasDb s (g + 1) (.routing h ch w d tc) []).err ≠ none := by
+    markToCollect hasDb s (g + 1) (.routing h ch w d tc) [] = { node := .routing h ch w d true } := by
   simp [markToCollect]
 
 theorem step_routing_inv {g : Nat} {h : Bytes} {ch : Nib → WN} {w : Nat} {d tc : Bool} {k : Nib} {ks : List Nib}
@@ -134,7 +135,7 @@ theorem markToCollect_fuel_mono (hasDb : Bool) (s : Store) : ∀ (f : Nat) (n : 
         rw [step_short_hit hasDb s g' h c d tc hm, step_short_hit hasDb s g h c d tc hm, e]
     | routing h ch w d tc =>
       cases key with
-      | nil => exact absurd he (step_routing_nil hasDb s g h ch w d tc)
+      | nil => rw [step_routing_nil, step_routing_nil]
       | cons k ks =>
         have hx := step_routing_inv hasDb s he
         have e := ih (ch k) ks g' hx hg
@@ -184,10 +185,18 @@ theorem markToCollect_ok_after (hasDb : Bool) (s : Store) : ∀ (f1 f2 : Nat) (n
             exact ih g2 c _ _ h1 h2
       | routing h ch w d tc =>
         cases a with
-        | nil => exact absurd h1 (step_routing_nil hasDb s g1 h ch w d tc)
+        | nil =>
+          rw [step_routing_nil hasDb s g1 h ch w d tc]
+          cases b with
+          | nil => rw [step_routing_nil hasDb s g2 h ch w d true]
+          | cons j bs =>
+            have hy := step_routing_inv hasDb s h2
+            rw [step_routing_ok hasDb s h w d true hy]
         | cons k as =>
           cases b with
-          | nil => exact absurd h2 (step_routing_nil hasDb s g2 h ch w d tc)
+          | nil =>
+            have hx := step_routing_inv hasDb s h1
+            rw [step_routing_ok hasDb s h w d tc hx, step_routing_nil hasDb s g2 h _ w d true]
           | cons j bs =>
             have hx := step_routing_inv hasDb s h1
             have hy := step_routing_inv hasDb s h2
@@ -271,12 +280,29 @@ theorem markToCollect_swap (hasDb : Bool) (s : Store) : ∀ (f1 f2 : Nat) (n : W
             exact ⟨i1, i2, by rw [i3]⟩
       | routing h ch w d tc =>
         cases a with
-        | nil => exact absurd h1 (step_routing_nil hasDb s g1 h ch w d tc)
+        | nil =>
+          rw [step_routing_nil hasDb s g1 h ch w d tc] at h2 ⊢
+          cases b with
+          | nil =>
+            have e := step_routing_nil hasDb s g2 h ch w d tc
+            rw [lift (g2 + 1) (by omega) (by rw [e]), e, step_routing_nil hasDb s g1 h ch w d true,
+              step_routing_nil hasDb s g2 h ch w d true]
+            exact ⟨rfl, rfl, rfl⟩
+          | cons j bs =>
+            have hz := step_routing_inv hasDb s h2
+            have e1 := step_routing_ok hasDb s h w d tc hz
+            rw [lift (g2 + 1) (by omega) (by rw [e1]), e1, step_routing_nil hasDb s g1 h _ w d true,
+              step_routing_ok hasDb s h w d true hz]
+            exact ⟨rfl, rfl, rfl⟩
         | cons k as =>
           have hx := step_routing_inv hasDb s h1
           rw [step_routing_ok hasDb s h w d tc hx] at h2 ⊢
           cases b with
-          | nil => exact absurd h2 (step_routing_nil hasDb s g2 h _ w d true)
+          | nil =>
+            have e := step_routing_nil hasDb s g2 h ch w d tc
+            rw [step_routing_nil hasDb s g2 h _ w d true, lift (g2 + 1) (by omega) (by rw [e]), e,
+              step_routing_ok hasDb s h w d true hx]
+            exact ⟨rfl, rfl, rfl⟩
           | cons j bs =>
             have hz := step_routing_inv hasDb s h2
             rw [step_routing_ok hasDb s h w d true hz]
@@ -430,22 +456,47 @@ def KidOK (hasDb : Bool) (s : Store) (ch : Nib → WN) : List Nib → Prop
   | [] => False
   | k :: ks => (markToCollect hasDb s (fuelFor (k :: ks) - 1) (ch k) ks).err = none
 
-theorem kidOK_iff (hasDb : Bool) (s : Store) (h : Bytes) (ch : Nib → WN) (w : Nat) (d tc : Bool) (key : List Nib) :
+/-- for a non-empty key (the goroutine of an empty key panics at `k[0]`, while the walk from the root marks the root) -/
+theorem kidOK_iff (hasDb : Bool) (s : Store) (h : Bytes) (ch : Nib → WN) (w : Nat) (d tc : Bool) (key : List Nib)
+    (hne : key ≠ []) :
     KidOK hasDb s ch key ↔ (markToCollect hasDb s (fuelFor key) (.routing h ch w d tc) key).err = none := by
   cases key with
-  | nil => simp [KidOK, markToCollect_routing_nil]
+  | nil => exact absurd rfl hne
   | cons k ks =>
     rw [markToCollect_routing_cons]
     simp only [KidOK]
     cases hr : (markToCollect hasDb s (fuelFor (k :: ks) - 1) (ch k) ks).err <;> simp
+
+theorem kidOK_ne {hasDb : Bool} {s : Store} {ch : Nib → WN} {key : List Nib} (h : KidOK hasDb s ch key) : key ≠ [] := by
+  intro e; subst e; exact h
+
+/-- the per-branch loop succeeds on non-empty keys only -/
+theorem markKids_ok_ne (hasDb : Bool) (s : Store) : ∀ (keys : List (List Nib)) (ch : Nib → WN),
+    (markKids hasDb s ch keys).2 = none → ∀ k ∈ keys, k ≠ [] := by
+  intro keys
+  induction keys with
+  | nil => intro _ _ k hk; cases hk
+  | cons key rest ih =>
+    intro ch h x hx
+    cases key with
+    | nil => simp [markKids] at h
+    | cons k ks =>
+      simp only [markKids] at h
+      cases hr : (markToCollect hasDb s (fuelFor (k :: ks) - 1) (ch k) ks).err with
+      | some e => rw [hr] at h; simp at h
+      | none =>
+        rw [hr] at h
+        rcases List.mem_cons.mp hx with rfl | hx
+        · simp
+        · exact ih _ h x hx
 
 /-- 3. the result of the per-branch parallel marking does not depend on the order in which the walks are executed when
 both orders succeed -/
 theorem markKids_perm_of_ok (hasDb : Bool) (s : Store) (ch : Nib → WN) (keys1 keys2 : List (List Nib))
     (hp : keys1.Perm keys2) (h1 : (markKids hasDb s ch keys1).2 = none) (h2 : (markKids hasDb s ch keys2).2 = none) :
     markKids hasDb s ch keys2 = markKids hasDb s ch keys1 := by
-  obtain ⟨a1, b1⟩ := markAll_routing hasDb s [] 0 false keys1 ch false
-  obtain ⟨a2, b2⟩ := markAll_routing hasDb s [] 0 false keys2 ch false
+  obtain ⟨a1, b1⟩ := markAll_routing hasDb s [] 0 false keys1 ch false (markKids_ok_ne hasDb s keys1 ch h1)
+  obtain ⟨a2, b2⟩ := markAll_routing hasDb s [] 0 false keys2 ch false (markKids_ok_ne hasDb s keys2 ch h2)
   rw [h1] at a1
   rw [h2] at a2
   have e := markAll_perm_of_ok hasDb s (.routing [] ch 0 false false) keys1 keys2 hp a1 a2
@@ -457,8 +508,9 @@ theorem markKids_perm_of_ok (hasDb : Bool) (s : Store) (ch : Nib → WN) (keys1 
 /-- walks that succeed one by one on the children of the root succeed in any order -/
 theorem markKids_ok_of_each (hasDb : Bool) (s : Store) (ch : Nib → WN) (keys : List (List Nib))
     (he : ∀ key ∈ keys, KidOK hasDb s ch key) : (markKids hasDb s ch keys).2 = none := by
-  rw [← (markAll_routing hasDb s [] 0 false keys ch false).1]
-  exact markAll_ok_of_each hasDb s keys _ (fun key hk => (kidOK_iff hasDb s [] ch 0 false false key).mp (he key hk))
+  rw [← (markAll_routing hasDb s [] 0 false keys ch false (fun key hk => kidOK_ne (he key hk))).1]
+  exact markAll_ok_of_each hasDb s keys _
+    (fun key hk => (kidOK_iff hasDb s [] ch 0 false false key (kidOK_ne (he key hk))).mp (he key hk))
 
 /-- 3. order independence of the per-branch parallel marking: when every walk alone succeeds on the children of the root,
 every serialisation of the walks succeeds and yields the same children -/
@@ -575,8 +627,14 @@ alone succeeds -/
 theorem kidOK_of_rep (hlen : ∀ x, (H x).length = 32) {h : Bytes} {ch : Nib → WN} {w : Nat} {d tc : Bool} {t : PT}
     {m : Nat} {key : List Nib} (hrep : RepS H s (.routing h ch w d tc) t) (hp : Proper (.routing h ch w d tc))
     (hne : NoEmp (.routing h ch w d tc)) (hu : Uniform m t) (hok : PTOK t) (hk : key.length = m) :
-    KidOK true s ch key :=
-  (kidOK_iff true s h ch w d tc key).mpr
+    KidOK true s ch key := by
+  have hm : 0 < m := by
+    cases hrep
+    simp only [Uniform] at hu
+    exact hu.1
+  have hkn : key ≠ [] := by
+    intro e; rw [e] at hk; simp at hk; omega
+  exact (kidOK_iff true s h ch w d tc key hkn).mpr
     (Mark.mark_ok (fuel := fuelFor key) hlen hrep hp hne hu hok hk (by unfold fuelFor; omega)).1
 
 /-- the per-branch parallel marking of `GetPath` below a branch root that represents a spec tree: every serialisation of
